@@ -28,7 +28,7 @@ N = 64  # bit-vector width of the python-int encoding (values here are < 2^10; n
 
 
 def _mods():
-    sys.path.insert(0, '/repo') if '/repo' not in sys.path else None
+    sys.path.insert(0, __import__('os').environ.get('VERIF_REPO', '/repo')) if __import__('os').environ.get('VERIF_REPO', '/repo') not in sys.path else None
     F = importlib.import_module('flipjump.interpreter.io_devices.FixedIO')
     S = importlib.import_module('flipjump.interpreter.io_devices.StandardIO')
     K = importlib.import_module('flipjump.interpreter.io_devices.KeyboardIO')
